@@ -27,14 +27,14 @@ ASSUMPTIONS = ['the reference release (mpmath 1.3.0) at 2p+200 bits evaluates ex
                'tol_prec/6 (otherwise thousands of segments are needed: cost, not correctness)',
                'segment boundaries are read from the closure of the returned function (series_boundaries); if the name disappears the '
                'boundary queries are skipped and the run reports it']
-LEVEL_TEXT = ('exploration: ~1.1*10^3 (quick) / ~9*10^3 (thorough) ODE problems, each solved three times; ~10 points per problem compared bit '
+LEVEL_TEXT = ('exploration: ~7*10^2 (quick) / ~6*10^3 (thorough) ODE problems, each solved three times; ~10 points per problem compared bit '
               'for bit between evaluation histories and against the closed form')
 LEVEL_NOTE = 'ODEs and histories not generated are not covered; closed forms rely on the reference release at high precision'
 TECHNIQUE = 'history check on the live object (differential run against an in-order run) + closed-form reference monitor'
 SHARD_TIMEOUT = {'quick': 500, 'thorough': 3000}
 
 NSHARDS = 16
-COUNTS = {'quick': 60, 'thorough': 500}
+COUNTS = {'quick': 45, 'thorough': 400}
 FAMS = ['exp', 'osc', 'ysq', 'ysqm', 'tri', 'cosx', 'xy', 'poly', 'rat']
 PRECS_Q = [30, 40, 53, 64, 80, 100, 113]
 PRECS_T = [30, 40, 53, 64, 80, 100, 113, 150, 200]
@@ -306,14 +306,27 @@ def run_case(mp, rec, spec):
         if ratio > 1 + guard:
             where = 'x0' if xq == x0 else 'x>x0'
             key = 'C34/accuracy/%s/%s' % (where, 'user-tol' if spec['tolk'] else 'default-tol')
-            # mechanism (read from the live object): a segment on the way to x got the default radius 1/2, i.e. the step-size
-            # rule (which looks at the last Taylor coefficient only) was skipped or capped because that coefficient is zero /
-            # negligible although the series does not terminate
+            # mechanism (read from the live object): the step-size rule looks at the LAST Taylor coefficient only.  If on the way
+            # to x a segment is (A) exactly 1/2 long with all last coefficients zero (rule skipped), or (B) more than twice as long
+            # as the next-to-last coefficient allows under the same rule, the last coefficient was lost / vanishes by parity
             try:
                 sd = closure_var(fA, 'series_data')
                 xv = mp.make_mpf(xr)
-                if fam != 'poly' and sd and any(sxb - sxa == 0.5 for (_, sxa, sxb) in sd if sxa <= xv):
-                    key = 'C34/accuracy/segment-with-default-radius'
+                tolp = (spec['tolk'] + 10) if spec['tolk'] is not None else p + 10
+                hit = False
+                with at_prec(mp, 64):
+                    for (ser, sxa, sxb) in (sd or []):
+                        if not sxa <= xv or fam == 'poly':
+                            continue
+                        n = len(ser[0]) - 1
+                        used = sxb - sxa
+                        if used == 0.5 and all(not ts[-1] for ts in ser):
+                            hit = True
+                        alts = [mp.nthroot(mp.ldexp(1, -tolp) / abs(ts[n - 1]), n - 1) / 2 for ts in ser if n > 1 and ts[n - 1]]
+                        if alts and used > 2 * min(alts):
+                            hit = True
+                if hit:
+                    key = 'C34/accuracy/step-size-rule-vanishing-last-coefficient'
             except Exception:
                 pass
             rec.violation(key,
